@@ -3,5 +3,6 @@ CONSTANTS
   SharedField = "none"
   NReqs = 2
   MaxSwitches = 2
+  Mode = "good"
 POSTCONDITION Written
 CHECK_DEADLOCK FALSE
